@@ -35,7 +35,11 @@ where
         + paseto_core::paserk::IdVersion
         + paseto_core::paserk::PieWrapVersion
         + paseto_core::paserk::PwWrapVersion
+        + paseto_core::paserk::PkeSealingVersion
+        + paseto_core::paserk::PkeUnsealingVersion
         + 'static,
+    Key<V, paseto_core::version::PkePublic>: Send + Sync,
+    Key<V, paseto_core::version::PkeSecret>: Send + Sync,
     Key<V, Local>: Send + Sync + Clone,
     Key<V, Secret>: Send + Sync + Clone,
     Key<V, Public>: Send + Sync + Clone,
@@ -46,15 +50,53 @@ where
     let pk = Arc::new(sk.public_key());
     let before = fingerprint::<V>(&lk, &sk, &pk, nonce_len)?;
     let bad_tok = format!("v{}.local.{}", be.version(), crate::gen_text::b64(&[0u8; 120]));
+    // sequential reference values for the deterministic operations
+    let expect_tok = Arc::new(
+        UnsealedToken::<V, Local, Raw>::new(Raw(b"deterministic".to_vec()))
+            .dangerous_seal_with_nonce(&lk, &[], vec![7u8; nonce_len])
+            .map_err(|e| err_name(&e).to_string())?
+            .to_string(),
+    );
+    let deterministic_sig = matches!(be, Be::V2 | Be::V3 | Be::V4 | Be::V4S);
+    let expect_sig = Arc::new(UnsealedToken::<V, Public, Raw>::new(Raw(b"deterministic".to_vec())).sign(&sk).map_err(|e| err_name(&e).to_string())?.to_string());
+    let (psk_raw, ppk_raw) = crate::gen_paserk::pke_pair(be);
+    let psk = Arc::new(key_of::<V, paseto_core::version::PkeSecret>(&psk_raw).map_err(|_| "pke-key".to_string())?);
+    let ppk = Arc::new(key_of::<V, paseto_core::version::PkePublic>(&ppk_raw).map_err(|_| "pke-key".to_string())?);
     let mut handles = vec![];
     for t in 0..threads {
         let (lk, sk, pk, bad_tok) = (lk.clone(), sk.clone(), pk.clone(), bad_tok.clone());
+        let (expect_tok, expect_sig, psk, ppk) = (expect_tok.clone(), expect_sig.clone(), psk.clone(), ppk.clone());
         handles.push(std::thread::spawn(move || -> (usize, usize) {
             let mut r = Rng::new(seed ^ (t as u64) << 20);
             let (mut ops, mut bad) = (0usize, 0usize);
             for i in 0..iters {
                 let msg = r.bytes_in(0, 40);
-                match r.below(7) {
+                match r.below(10) {
+                    7 => {
+                        // deterministic operations give exactly the sequential result
+                        let t = UnsealedToken::<V, Local, Raw>::new(Raw(b"deterministic".to_vec())).dangerous_seal_with_nonce(&lk, &[], vec![7u8; nonce_len]).ok().map(|t| t.to_string());
+                        if t.as_deref() != Some(expect_tok.as_str()) { bad += 1; }
+                        let open = SealedToken::<V, Local, Raw>::from_str(&expect_tok).ok().and_then(|t| t.decrypt(&lk, &nv()).ok()).map(|u| u.claims.0 == b"deterministic").unwrap_or(false);
+                        if !open { bad += 1; }
+                    }
+                    8 => {
+                        let s = UnsealedToken::<V, Public, Raw>::new(Raw(b"deterministic".to_vec())).sign(&sk).ok().map(|t| t.to_string());
+                        if deterministic_sig && s.as_deref() != Some(expect_sig.as_str()) { bad += 1; }
+                        let ok = SealedToken::<V, Public, Raw>::from_str(&expect_sig).ok().and_then(|t| t.verify(&pk, &nv()).ok()).map(|u| u.claims.0 == b"deterministic").unwrap_or(false);
+                        if !ok { bad += 1; }
+                    }
+                    9 => {
+                        // key sealing to the shared recipient key, unsealing with the shared secret key; a failing unseal in between
+                        if be != Be::V1 || i % 16 == 0 {
+                            let sealed = (*lk).clone().seal(&ppk).ok().map(|s| s.to_string());
+                            let ok = sealed.as_ref().and_then(|s| paseto_core::paserk::SealedKey::<V>::from_str(s).ok()).and_then(|s| s.unseal(&psk).ok())
+                                .map(|k| k.expose_key().as_raw_bytes() == lk.expose_key().as_raw_bytes()).unwrap_or(false);
+                            if !ok { bad += 1; }
+                            let broken = sealed.map(|s| { let mut b = s.into_bytes(); let n = b.len(); b[n - 2] = if b[n - 2] == b'A' { b'B' } else { b'A' }; String::from_utf8(b).unwrap() });
+                            let rejected = broken.and_then(|s| paseto_core::paserk::SealedKey::<V>::from_str(&s).ok()).map(|s| s.unseal(&psk).is_err()).unwrap_or(true);
+                            if !rejected { bad += 1; }
+                        }
+                    }
                     0 => {
                         // encrypt with the shared key, decrypt with the shared key
                         let ok = UnsealedToken::<V, Local, Raw>::new(Raw(msg.clone())).encrypt(&lk).ok()
